@@ -95,6 +95,7 @@ namespace verif
         u32      cur_owner;  // logical owner tag for new blocks / expected owner of releases
         u32      check_lifo; // releases must be most recent outstanding block of the same owner
         u32      frozen;     // any call is a violation (e.g. while destroying a moved-from object)
+        u32      place;      // 0: first fit at the lowest address; 1: alternate lowest / highest address (non-monotonic block addresses)
 
         void init(u8* arena, std::size_t arena_bytes, u32 cap)
         {
@@ -145,8 +146,36 @@ namespace verif
                 throw upstream_failure();
             }
             std::size_t a = align < 16 ? 16 : align;
-            // first fit at lowest address
             std::size_t pos = 0;
+            if (place == 1 && (nblk % 2) == 1)
+            {
+                // highest address that fits
+                long p = long((ARENA - bytes) / a * a);
+                for (;;)
+                {
+                    if (p < 0)
+                    {
+                        ++t.up_failed;
+                        t.event("upstream_refused");
+                        throw upstream_failure();
+                    }
+                    bool moved = false;
+                    for (u32 i = 0; i < nblk; ++i)
+                        if (std::size_t(p) < std::size_t(blk[i].off) + blk[i].size && blk[i].off < std::size_t(p) + bytes)
+                        {
+                            p     = (long(blk[i].off) - long(bytes)) / long(a) * long(a);
+                            if (long(blk[i].off) - long(bytes) < 0)
+                                p = -1;
+                            moved = true;
+                            break;
+                        }
+                    if (!moved)
+                        break;
+                }
+                pos = std::size_t(p);
+            }
+            else
+            // first fit at lowest address
             for (;;)
             {
                 pos = (pos + a - 1) / a * a;
